@@ -284,6 +284,11 @@ VF_INL SN(__m256i) SN(_mm256_mul_epu32)(SN(__m256i) a, SN(__m256i) b) {
   for (int i = 0; i < 4; ++i) r.q[i] = (a.q[i] & 0xffffffffULL) * (b.q[i] & 0xffffffffULL);
   return r;
 }
+VF_INL SN(__m256i) SN(_mm256_mul_epi32)(SN(__m256i) a, SN(__m256i) b) {
+  SN(__m256i) r;
+  for (int i = 0; i < 4; ++i) r.q[i] = (uint64_t)((int64_t)(int32_t)(uint32_t)a.q[i] * (int64_t)(int32_t)(uint32_t)b.q[i]);
+  return r;
+}
 VF_INL SN(__m256i) SN(_mm256_and_si256)(SN(__m256i) a, SN(__m256i) b) {
   SN(__m256i) r;
   for (int i = 0; i < 4; ++i) r.q[i] = a.q[i] & b.q[i];
